@@ -22,6 +22,7 @@ pub fn make(spec: &JobSpec, ex: &mut Executor, out: &mut JobResult) -> Option<Bo
         "clock" => ClockJob::new(spec, ex, out).map(|j| Box::new(j) as Box<dyn Job>),
         "pipelines" => Some(Box::new(LiveJob::pipelines(spec))),
         "fixed" => Some(Box::new(LiveJob::fixed(spec))),
+        "doc-adversarial" => Some(Box::new(LiveJob::doc_adversarial(spec, out))),
         "single" => {
             let sc: Scenario = scenario_from_params(spec)?;
             if sc.label.starts_with("C10 live") {
@@ -434,6 +435,8 @@ pub const FIXED: &[(&str, &str)] = &[
     ("str-replace-huge", "fn main()->int{ (\"a\" * 100000).replace(\"a\", \"bb\" * 1000).len() }"),
     ("str-split-huge", "fn main()->int{ (\"a,\" * 100000).split(\",\").len() }"),
     ("nth-backwards-huge", "fn main()->bool{ range(10 ** 12).nth(0 - 1, (v_x: int)->{v_x < 0}).has_value() }"),
+    ("nth-backwards-native-predicate", "fn main()->bool{ range(10 ** 12).nth(0 - 1, is_error{int}).has_value() }"),
+    ("last-native-predicate", "fn main()->bool{ range(10 ** 12).last(is_error{int}).has_value() }"),
     ("last-huge", "fn main()->bool{ range(10 ** 12).last((v_x: int)->{v_x < 0}).has_value() }"),
     ("deep-recursion", "fn v_d(v_n: int)->int{ 1 + v_d(v_n + 1) }\nfn main()->int{ v_d(0) }"),
     ("endless-tail-loop", "fn v_l(v_n: int)->int{ if(v_n < 0, 0, v_l(v_n + 1)) }\nfn main()->int{ v_l(0) }"),
@@ -448,6 +451,9 @@ pub const FIXED: &[(&str, &str)] = &[
     ("str-repeat-join", "fn main()->int{ [\"ab\"].repeat(10 ** 9).join(\"\").len() }"),
     ("json-deep", "fn main()->int{ (\"[\" * 100000 + \"]\" * 100000).json_deserialize().serialize().len() }"),
 ];
+
+/// fixed entries that only the size limit bounds by design (the work is the size of the result)
+pub const SIZE_BOUNDED: &[&str] = &["digits-huge", "dist-hypergeometric-large"];
 
 struct LiveJob {
     scenarios: Vec<Scenario>,
@@ -472,8 +478,60 @@ impl LiveJob {
         LiveJob { scenarios }
     }
 
+    /// every documented function with each argument replaced by adversarial values of its type
+    /// (and, for `pairs`, two arguments at once), the lazy result consumed
+    fn doc_adversarial(spec: &JobSpec, out: &mut JobResult) -> Self {
+        let part = spec.params.get("part").and_then(|v| v.as_u64()).unwrap_or(0) as usize;
+        let parts = spec.params.get("parts").and_then(|v| v.as_u64()).unwrap_or(1) as usize;
+        let pairs = spec.params.get("pairs").and_then(|v| v.as_u64()).unwrap_or(0) as usize;
+        let (calls, _, _) = crate::docsig::calls();
+        let mut rng = Prng::new(spec.seed);
+        let mut scenarios = vec![];
+        for (ci, c) in calls.iter().enumerate() {
+            if ci % parts != part {
+                continue;
+            }
+            let pools: Vec<Vec<String>> = c.arg_types.iter().map(crate::docsig::adversarial).collect();
+            let mut texts: Vec<(String, String)> = vec![];
+            for (i, pool) in pools.iter().enumerate() {
+                for (k, e) in pool.iter().enumerate() {
+                    texts.push((format!("{} arg{i}:{k}", c.label), crate::docsig::substituted(c, &[(i, e)])));
+                }
+            }
+            // seeded subsets of two or more positions, all adversarial at once
+            let positions: Vec<usize> = (0..pools.len()).filter(|i| !pools[*i].is_empty()).collect();
+            if positions.len() >= 2 {
+                for _ in 0..pairs {
+                    let mut chosen: Vec<usize> = positions.iter().copied().filter(|_| rng.below(5) < 3).collect();
+                    while chosen.len() < 2 {
+                        let p = positions[rng.below(positions.len() as u64) as usize];
+                        if !chosen.contains(&p) {
+                            chosen.push(p);
+                        }
+                    }
+                    chosen.sort();
+                    let picks: Vec<(usize, usize)> = chosen.iter().map(|&i| (i, rng.below(pools[i].len() as u64) as usize)).collect();
+                    let subs: Vec<(usize, &str)> = picks.iter().map(|&(i, k)| (i, pools[i][k].as_str())).collect();
+                    let tag: Vec<String> = picks.iter().map(|(i, k)| format!("arg{i}:{k}")).collect();
+                    texts.push((format!("{} {}", c.label, tag.join("+")), crate::docsig::substituted(c, &subs)));
+                }
+            }
+            texts.sort();
+            texts.dedup();
+            for (label, call) in texts {
+                let mut sc = Scenario::standard(&crate::docsig::forcing_program(&call, &c.ret), live_limits());
+                sc.ops = live_ops();
+                sc.label = format!("C10 live doc-adversarial {label} {call}");
+                scenarios.push(sc);
+            }
+        }
+        out.count("doc_adversarial_cases", scenarios.len() as u64);
+        LiveJob { scenarios }
+    }
+
     fn fixed(spec: &JobSpec) -> Self {
         let only = spec.params.get("name").and_then(|v| v.as_str());
+        let nosize = spec.params.get("nosize").and_then(|v| v.as_bool()).unwrap_or(false);
         let scenarios = FIXED
             .iter()
             .filter(|(n, _)| only.map_or(true, |o| o == *n))
@@ -481,6 +539,11 @@ impl LiveJob {
                 let mut sc = Scenario::standard(text, live_limits());
                 sc.ops = live_ops();
                 sc.label = format!("C10 live fixed:{n}");
+                if nosize {
+                    // the search and call budgets alone must bound the work of these entries
+                    sc.limits.size = Some(64 << 20);
+                    sc.label = format!("C10 live fixed-search-bounded:{n}");
+                }
                 sc
             })
             .collect();
